@@ -32,7 +32,7 @@ package dns
 //@   requires 0 <= offset
 //@   ensures mono: ret1 == nil ==> offset <= ret0
 //@   ensures rng: ret1 == nil && offset <= len(msg) ==> ret0 <= len(msg)
-//@   ensures empty: ret1 == nil && len(txt) == 0 ==> ret0 == offset [C08]
+//@   ensures empty: ret1 == nil && len(txt) == 0 ==> ret0 == offset [C08 C09 C01]
 //@   loop 1 invariant old(offset) <= offset && (old(offset) <= len(msg) ==> offset <= len(msg))
 //@   writes msg
 //@ func packStringTxt [C01 C08 C16]
